@@ -5,7 +5,8 @@ package store
 // generated histories of blocks and checks history independence of the state root: the root after a
 // history equals the root of a fresh store that receives the final key/value set in a single block. Between the
 // blocks of a history, candidate blocks are applied, their root is read and they are discarded (Reset), and empty
-// blocks are committed: none of that may change a committed root.
+// blocks are committed, and the chain is sometimes rolled back to an earlier height before it continues: none of that may
+// change the root of the state finally reached.
 // Histories alternate between a densely populated tree and a sparse one (few leaves per subtree, then blocks above
 // the parallel threshold that delete them).
 // Bounds: key pool size, blocks per history, ops per block and number of histories are printed.
@@ -35,6 +36,15 @@ func verifApply(t *testing.T, blocks [][]verifOp) ([]byte, map[string]string) {
 	s := st.(*Store)
 	defer s.Close()
 	final := map[string]string{}
+	snaps := map[uint64]map[string]string{} // committed state per height (for rollbacks)
+	verifTrace = verifTrace[:0]
+	snap := func() {
+		c := map[string]string{}
+		for k, v := range final {
+			c[k] = v
+		}
+		snaps[s.Version()] = c
+	}
 	var root []byte
 	for _, blk := range blocks {
 		for _, op := range blk {
@@ -56,6 +66,27 @@ func verifApply(t *testing.T, blocks [][]verifOp) ([]byte, map[string]string) {
 		if e != nil {
 			t.Fatal(e)
 		}
+		snap()
+		verifTrace = append(verifTrace, fmt.Sprintf("commit->%d(%d ops)", s.Version(), len(blk)))
+		// sometimes the chain is rewound to an earlier height and continues from there: the blocks that follow are
+		// committed on top of the state of that height, and the rolled-back blocks must leave no trace in any root
+		if verifSpec != nil && s.Version() >= 2 && verifSpec.Intn(4) == 0 {
+			target := 1 + uint64(verifSpec.Intn(int(s.Version())-1))
+			if e := s.Rollback(target); e != nil {
+				t.Fatal(e)
+			}
+			verifTrace = append(verifTrace, fmt.Sprintf("rollback->%d", target))
+			final = map[string]string{}
+			for k, v := range snaps[target] {
+				final[k] = v
+			}
+			// (the root is computed once per block and cached until the store is reset or committed: read it the way
+			// the node does - Root(), then Reset() - so that the blocks that follow start from a clean store)
+			if root, e = s.Root(); e != nil {
+				t.Fatal(e)
+			}
+			s.Reset()
+		}
 		// speculation: a candidate block is applied, its root is read, and the candidate is thrown away (what a
 		// validator does with a proposal it does not commit); sometimes an EMPTY block is committed right after.
 		// Neither may influence any committed root: the state is unchanged.
@@ -72,15 +103,21 @@ func verifApply(t *testing.T, blocks [][]verifOp) ([]byte, map[string]string) {
 				t.Fatal(e)
 			}
 			s.Reset()
+			verifTrace = append(verifTrace, "speculate+reset")
 			if verifSpec.Intn(2) == 0 {
 				if root, e = s.Commit(); e != nil {
 					t.Fatal(e)
 				}
+				snap()
+				verifTrace = append(verifTrace, fmt.Sprintf("emptycommit->%d", s.Version()))
 			}
 		}
 	}
 	return root, final
 }
+
+// verifTrace: the commits, rollbacks and speculations of the last verifApply (printed with a violation)
+var verifTrace []string
 
 // verifSpec, when set, makes verifApply interleave discarded speculative blocks and empty blocks
 var verifSpec *rand.Rand
@@ -149,6 +186,7 @@ func TestVerifBoundedC08(t *testing.T) {
 		}
 		verifSpec = rand.New(rand.NewSource(seed*1000 + int64(h)))
 		root, final := verifApply(t, blocks)
+		trace := append([]string(nil), verifTrace...)
 		verifSpec = nil
 		// reference: the final state in ONE block on a fresh store (sorted for reproducibility)
 		var keys []string
@@ -167,7 +205,7 @@ func TestVerifBoundedC08(t *testing.T) {
 		}
 		if !bytes.Equal(root, ref) {
 			viol++
-			fmt.Printf("BOUNDED-VIOLATION history=%d seed=%d blocks=%d finalKeys=%d root=%x reference=%x\n", h, seed, nb, len(final), root, ref)
+			fmt.Printf("BOUNDED-VIOLATION history=%d seed=%d blocks=%d finalKeys=%d root=%x reference=%x trace=%v\n", h, seed, nb, len(final), root, ref, trace)
 			for bi, blk := range blocks {
 				fmt.Printf("BOUNDED-HISTORY history=%d block=%d ops=%d %v\n", h, bi, len(blk), blk)
 			}
